@@ -38,7 +38,7 @@ CHECKS = {
          "sequential: every handle history (copy/assign/swap/null/destroy, handles stored inside the managed objects: h = h->next and the like) over RefCount::Ptr and Xml::Variant to a fix-point / depth bound and the String/Variant histories with count == sharers; concurrent: every schedule with <= 2 (3) preemptions at volatile/atomic operations and every schedule with <= 1 preemption with all plain accesses as scheduling points, for 9 three-thread scenarios",
          "sequential consistency (no weak-memory effects); bounded numbers of handles and threads", "DESIGN.md §4 C09"),
  "C10": ("model_checking", "stateless delay/preemption-bounded DFS over thread schedules of the real Future + worker pool under a serialising scheduler; Future.cpp is included into the scenario unit to install small pools and to shut the pool down",
-         "nine scenarios (single client, lazy creation race, one-slot queue back-pressure, three futures before any join, abort, restart, clock jumps driving the shrink branch, client+main on a one-slot queue, growth to three workers followed by idle periods that retire them): every schedule with <= 2 (3 thorough) deviations from the default scheduler (1 (2) for the 650-point lazy-creation scenario), and with every plain access as a scheduling point with <= 1 (2); exactly-once, join-after-completion, result, state, deadlock/livelock, call-record lifetime (guard allocator) and operations on destroyed primitives are decided on each",
+         "ten scenarios (single client, lazy creation race, one-slot queue back-pressure, three futures before any join, abort, restart, clock jumps driving the shrink branch, client+main on a one-slot queue, growth to three workers followed by idle periods that retire them, restart after an aborted call): every schedule with <= 2 (3 thorough) deviations from the default scheduler (1 (2) for the 650-point lazy-creation scenario), and with every plain access as a scheduling point with <= 1 (2); exactly-once, join-after-completion, result, state, deadlock/livelock, call-record lifetime (guard allocator) and operations on destroyed primitives are decided on each",
          "sequential consistency; processor count 1 (pool of at most 3 workers); delay-bounded (a non-default successor at a blocking point costs budget too)", "DESIGN.md §4 C10"),
  "C11": ("model_checking", "stateless preemption- and deviation-bounded DFS over thread schedules of the real primitives under a serialising scheduler (TSan-ABI callbacks + renamed pthread/sem/clock calls as scheduling points)",
          "every schedule with <= 2 (3) preemptions and <= 1 (2) environment deviations (spurious wake-up, early timeout) of 2-4 thread scenarios per primitive, plus the deadline arithmetic of every timed wait for 18 start/timeout combinations; deadlock/livelock verdicts from the scheduler",
